@@ -126,7 +126,10 @@ private:
                       "type of split object is incorrect");
         __TBB_ASSERT(r.is_divisible(), "can't split not divisible range");
 
+        // A divisible dimension is always preferred to a non-divisible one: the ratio comparison alone may select
+        // a non-divisible dimension when the products are rounded to double.
         auto my_it = std::max_element(my_dims.begin(), my_dims.end(), [](const dim_range_type& first, const dim_range_type& second) {
+            if (first.is_divisible() != second.is_divisible()) return second.is_divisible();
             return (first.size() * double(second.grainsize()) < second.size() * double(first.grainsize()));
         });
 
